@@ -73,4 +73,11 @@ theorem declS_ok : DeclOk declS atS schS 0 ∧ DeclOk declS atS schS 1 := by
       · rfl
       · cases hu
 
+theorem declS_all : ∀ k ∈ [0, 1], DeclOk declS atS schS k := by
+  intro k hk
+  simp only [List.mem_cons, List.not_mem_nil, or_false] at hk
+  rcases hk with rfl | rfl
+  · exact declS_ok.1
+  · exact declS_ok.2
+
 end Pyx.Interp
